@@ -380,14 +380,20 @@ theorem loopNode_frame (loop : St → Res) (hl : FrameOK loop) : FrameOK (loopNo
   · simp only [hr]
     cases r.err with
     | some e => exact l1
-    | none => simp only; cases r.st.c.err <;> exact l1
+    | none =>
+      simp only
+      cases r.st.c.err with
+      | none => exact l1
+      | some e => simp only; rw [loopErrRes_w]; exact l1
   · intro pl po k
     simp only [l2', hr, Res.pre]
     cases r.err with
     | some e => rfl
     | none =>
       simp only [St.pre, Ctx.pre, Writer.pre]
-      cases hce : r.st.c.err <;> simp [hce, fail]
+      cases hce : r.st.c.err with
+      | none => simp [hce]
+      | some e => simp only [hce]; unfold loopErrRes; split <;> simp [fail]
 
 theorem inclFinish_frame (r : Res) (s : St) (h : s.w.failAt = none) :
     (inclFinish s r).st.w.failAt = none ∧
